@@ -1100,6 +1100,7 @@ type c19Job struct {
 	fields []string
 	corpus bool
 	excl   string
+	inside bool
 }
 
 func c19(c *Ctx) {
@@ -1124,6 +1125,12 @@ func c19(c *Ctx) {
 		toks := c19Tokens(cs)
 		answer, fields, fsys := c19Impl(cs, w)
 		c.Op("fields "+toks, answer)
+		excl := c19Excl(cs)
+		inside := c19SpecInside(cs)
+		if excl == "" && inside && answer != "panic" && !strings.HasPrefix(answer, "err") {
+			c.Op("specfields "+toks, answer)
+			c.Hist["specfields"]++
+		}
 		tags := []string{"opts=" + strconv.Itoa(cs.opts)}
 		if strings.HasPrefix(answer, "err") || answer == "panic" {
 			tags = append(tags, answer)
@@ -1135,8 +1142,8 @@ func c19(c *Ctx) {
 			tags = append(tags, "multi-match")
 		}
 		c.Case(toks, fsys.calls > 0, tags...)
-		j := c19Job{cs: cs, src: src, toks: toks, answer: answer, fields: fields, corpus: corpus}
-		j.excl = c19Excl(cs)
+		j := c19Job{cs: cs, src: src, toks: toks, answer: answer, fields: fields, corpus: corpus, inside: inside}
+		j.excl = excl
 		if fsys.escaped && j.excl == "" {
 			j.excl = "above-root"
 		}
@@ -1163,15 +1170,26 @@ func c19(c *Ctx) {
 		p := genFrom(c.R, cleanAlpha, 9)
 		c.Op("clean "+hx(p), hx(filepath.Clean(p)))
 	}
-	// search leg
+	// search leg: interp and bash on the materialised tree.  Cases outside the exclusion regions are
+	// compared (c.Fail); a smaller number of cases inside them is run as well, for the `bashspec`
+	// stream only (the Lean specification must describe bash there too).
 	nshell := c.N / 4
+	nexcl := c.N / 16
 	var sel []int
+	nsel, nex := 0, 0
 	for i, j := range jobs {
-		if j.corpus || (len(sel) < nshell+len(sel)*0 && j.excl == "" && !strings.ContainsAny(j.src, "\n")) {
-			sel = append(sel, i)
+		if strings.ContainsAny(j.src, "\n") || j.excl == "above-root" {
+			continue
 		}
-		if len(sel) >= nshell && !j.corpus {
-			break
+		switch {
+		case j.corpus:
+			sel = append(sel, i)
+		case j.excl == "" && nsel < nshell:
+			sel = append(sel, i)
+			nsel++
+		case j.excl != "" && j.excl != "extglob-syntax-off" && j.inside && nex < nexcl:
+			sel = append(sel, i)
+			nex++
 		}
 	}
 	workers := 4
@@ -1190,21 +1208,31 @@ func c19(c *Ctx) {
 		nb++
 		witness := "sh " + j.toks
 		if run.interp != run.bash {
-			c.Fail(witness, fmt.Sprintf("interp prints %q, bash prints %q; %s", c19Show(run.interp), c19Show(run.bash), c19Describe(j.cs, j.src)))
-			if debug {
-				fmt.Printf("MISMATCH interp=%q bash=%q mem=%q\n   %s\n   %s\n", c19Show(run.interp), c19Show(run.bash), j.answer, c19Describe(j.cs, j.src), witness)
+			if j.excl == "" || j.corpus {
+				c.Fail(witness, fmt.Sprintf("interp prints %q, bash prints %q; %s", c19Show(run.interp), c19Show(run.bash), c19Describe(j.cs, j.src)))
+				if debug {
+					fmt.Printf("MISMATCH interp=%q bash=%q mem=%q\n   %s\n   %s\n", c19Show(run.interp), c19Show(run.bash), j.answer, c19Describe(j.cs, j.src), witness)
+				}
+			} else {
+				c.Hist["known-region-differs:"+j.excl]++
 			}
+		}
+		// the Lean specification against bash (also inside the known-finding regions)
+		if j.inside && !strings.Contains(run.bash, "\x00status ") && !strings.HasPrefix(run.bash, "panic") {
+			c.Op("bashspec "+j.toks, strings.TrimSpace("out "+hxs(strings.Split(run.bash, "\x00"))))
+			c.Hist["bashspec"]++
 		}
 		// the in-memory tree and the scratch directory must give interp the same answer
-		mem := ""
 		if strings.HasPrefix(j.answer, "ok") {
-			mem = strings.Join(j.fields, "\x00")
-		}
-		if strings.HasPrefix(j.answer, "ok") && mem != run.interp {
-			c.Hist["memfs-differs"]++
-			if debug {
-				fmt.Printf("MEMFS interp=%q mem=%q\n   %s\n", c19Show(run.interp), c19Show(mem), c19Describe(j.cs, j.src))
+			mem := strings.Join(j.fields, "\x00")
+			got := "same"
+			if mem != run.interp {
+				got = "differs: in-memory " + hx(mem) + " scratch-directory " + hx(run.interp)
+				if debug {
+					fmt.Printf("MEMFS interp=%q mem=%q\n   %s\n", c19Show(run.interp), c19Show(mem), c19Describe(j.cs, j.src))
+				}
 			}
+			c.Op("memfs "+j.toks, got)
 		}
 	}
 	c.Extra["shell_runs"] = nb
@@ -1531,4 +1559,83 @@ func c19Bash(c *Ctx, cwd, outPath, script string) ShellResult {
 		}
 	}
 	return res
+}
+
+// c19SpecInside: is the case inside the domain of the Lean specification `specFields`?  (Mirrors
+// the `outside` answers of the specification: tilde prefix, ${v} values that are empty or have white
+// space, an unquoted `**` component under globstar, an empty component after a pattern component.)
+func c19SpecInside(cs c19Case) bool {
+	if len(cs.segs) > 0 && cs.segs[0].kind == 'u' && strings.HasPrefix(cs.segs[0].val, "~") {
+		return false
+	}
+	for _, s := range cs.segs {
+		if s.kind == 'p' && (cs.vars[s.idx] == "" || strings.ContainsAny(cs.vars[s.idx], " \t\n")) {
+			return false
+		}
+	}
+	type pc struct {
+		c byte
+		q bool
+	}
+	var chars []pc
+	for _, s := range cs.segs {
+		switch s.kind {
+		case 'u':
+			for i := 0; i < len(s.val); i++ {
+				if s.val[i] == '\\' && i+1 < len(s.val) {
+					i++
+					chars = append(chars, pc{s.val[i], true})
+				} else {
+					chars = append(chars, pc{s.val[i], false})
+				}
+			}
+		case 's':
+			for i := 0; i < len(s.val); i++ {
+				chars = append(chars, pc{s.val[i], true})
+			}
+		case 'd':
+			v := s.val
+			for i := 0; i < len(v); i++ {
+				if v[i] == '\\' && i+1 < len(v) && strings.IndexByte("\"\\$`", v[i+1]) >= 0 {
+					i++
+				}
+				chars = append(chars, pc{v[i], true})
+			}
+		case 'p':
+			for i := 0; i < len(cs.vars[s.idx]); i++ {
+				chars = append(chars, pc{cs.vars[s.idx][i], false})
+			}
+		case 'g':
+			for i := 0; i < len(s.val); i++ {
+				chars = append(chars, pc{s.val[i], false})
+			}
+		}
+	}
+	chars = append(chars, pc{'/', false})
+	var sb strings.Builder
+	patSeen := false
+	ncomp := 0
+	for i, ch := range chars {
+		if ch.c != '/' {
+			if ch.q {
+				sb.WriteByte('\\')
+			}
+			sb.WriteByte(ch.c)
+			continue
+		}
+		comp := sb.String()
+		sb.Reset()
+		last := i == len(chars)-1
+		if cs.opts&c19Star != 0 && comp == "**" {
+			return false
+		}
+		if comp == "" && patSeen && !last && ncomp > 0 {
+			return false
+		}
+		if c19HasMeta(comp) || cs.opts&c19Ext != 0 && c19HasExtGroup(comp) {
+			patSeen = true
+		}
+		ncomp++
+	}
+	return true
 }
